@@ -111,6 +111,8 @@ def run(chk):
         driver = drivers[it] if it < len(drivers) else rng.choice(drivers)       # every driver in every run
         rec = not driver.endswith("-final")           # record_all=False: only the final state, labelled with ITS time
         driver = driver.replace("-final", "")
+        if driver == "controls":
+            tau = rng.choice([-31.7, 2000.0, 250.3])      # control times far from the origin as well
         info = {"kind": "search", "driver": driver, "record_all": rec, "tau": tau, "start": start, "N": N, "subdiv_limit": sub}
 
         def build(s0, sh):
@@ -132,6 +134,11 @@ def run(chk):
                     c = Control(2)
                     c.add_single(float(s0 + 1.3 * dt), oqupy.operators.left_right_super(SX, SX), False)
                     c.add_single(float(s0 + 2.0 * dt), oqupy.operators.left_right_super(SY, SY), True)
+                    # two non-commuting operations 1e-3 dt apart within one step, the later one registered first; one more in
+                    # the neighbouring step
+                    rz_ = np.diag(np.exp(-0.35j * np.array([1.0, -1.0])))
+                    c.add_single(float(s0 + 2.9 * dt + 1e-3 * dt), oqupy.operators.left_right_super(rz_, rz_.conj().T), False)
+                    c.add_single(float(s0 + 2.9 * dt), oqupy.operators.left_right_super(SX, SX), False)
                     d = quiet(oqupy.compute_dynamics, sysm, initial_state=rho0, process_tensor=pt, start_time=s0, control=c, subdiv_limit=sub, progress_type="silent")
                     return list(d.times), np.array(d.states)
                 t, cc = quiet(oqupy.compute_correlations, sysm, pt, SZ, SX, float(s0 + 1.0 * dt), (float(s0 + 0.2 * dt), float(s0 + (N - 0.3) * dt)),
